@@ -42,3 +42,17 @@ Example C04_example_sequential :
   c04_pair c = [Some (Some [47;114;48]%N, [[48]%N]); Some (Some [47;114;49]%N, [[49]%N])] /\
   flag_has (c_conn_flags c) c_HTP_CONN_PIPELINED = false.
 Proof. vm_compute. split; reflexivity. Qed.
+
+(* ---- history level, request direction: n pipelined requests of the wire grammar whose methods the library knows, delivered in ANY chunking (a chunk
+        may span request boundaries anywhere): n transactions, the i-th reporting the i-th request, and the pipelining indicator is set exactly when
+        there are at least two (no response is offered here, so every later request starts while an earlier one is unanswered). The known-method
+        premise is needed: an extension method directly after another request in the same chunk is swallowed as body (listed finding) ---- *)
+Require Import Htp.Spec.SWire Htp.Proof.PWireExch Htp.Proof.PSeg Htp.Proof.PSegRun Htp.Proof.PSegPipe.
+Theorem C04_pipelined_requests : forall cb g (rs : list wr_request) (chunks : list bytes),
+  wr_all_ok cb -> g_allow_space_uri g = false -> (g_max_tx g = 0 \/ length rs < g_max_tx g)%nat ->
+  Forall (fun r => sg_req_ok g r = true) rs -> Forall (fun x => x <> []) chunks -> concat chunks = concat (map wr_request_wire rs) ->
+  Forall2 (fun slot r => exists t, slot = Some t /\ wr_reported (sg_mask t) r)
+          (c_txs (fst (cp_run cb g connp_new (OpOpen :: map OpReqData chunks)))) rs /\
+  c_conn_flags (fst (cp_run cb g connp_new (OpOpen :: map OpReqData chunks))) = (if (2 <=? length rs)%nat then c_HTP_CONN_PIPELINED else 0%N).
+Proof. exact sg_pipeline_fidelity. Qed.
+Print Assumptions C04_pipelined_requests.
